@@ -36,6 +36,17 @@ pub struct E2Cfg {
     /// are scripted through the verif seam; false: on a scripted `Transport`/`Socket` implementation
     #[serde(default)]
     pub raw_udp: bool,
+    /// the servers bind on one address (10.3.0.x) and advertise another (10.2.0.x), as behind NAT
+    /// or with a 0.0.0.0 bind; the network routes by advertised address
+    #[serde(default)]
+    pub split_addr: bool,
+    /// the seed list is shared: every server's own advertised address is in it as well
+    #[serde(default)]
+    pub self_in_seeds: bool,
+}
+
+fn listen_addr(cfg: &E2Cfg, i: usize) -> SocketAddr {
+    if cfg.split_addr { SocketAddr::from(([10, 3, 0, 1 + i as u8], 6000 + i as u16)) } else { addr(i) }
 }
 
 /// Bound used by the seed set oracle: five refresh periods of dns_refresh_loop
@@ -127,6 +138,8 @@ struct Net {
     /// replies seen towards the synthetic probe address
     probe_replies: u64,
     last_send_ms: HashMap<SocketAddr, u64>,
+    /// bind address -> advertised address (the identity every other table uses)
+    alias: HashMap<SocketAddr, SocketAddr>,
     /// first datagram a server handed to its socket that does not decode (C19)
     garbled: Option<String>,
     /// sends towards the synthetic probe address, per sender
@@ -261,8 +274,9 @@ struct SimSocket {
 impl Transport for SimTransport {
     async fn open(&self, listen_addr: SocketAddr) -> anyhow::Result<Box<dyn Socket>> {
         let (tx, rx) = mpsc::unbounded_channel();
-        self.net.lock().unwrap().inboxes.insert(listen_addr, tx);
-        Ok(Box::new(SimSocket { addr: listen_addr, net: self.net.clone(), rx }))
+        let public = self.net.lock().unwrap().alias.get(&listen_addr).copied().unwrap_or(listen_addr);
+        self.net.lock().unwrap().inboxes.insert(public, tx);
+        Ok(Box::new(SimSocket { addr: public, net: self.net.clone(), rx }))
     }
 }
 
@@ -439,6 +453,7 @@ impl Run {
             syn_at: BTreeMap::new(),
             probe_replies: 0,
             last_send_ms: HashMap::new(),
+            alias: (0..cfg.n).map(|i| (listen_addr(&cfg, i), addr(i))).collect(),
             garbled: None,
             probe_sends: HashMap::new(),
             flood_watch: None,
@@ -463,11 +478,11 @@ impl Run {
                 chitchat_id: ChitchatId::new(id.node_id.clone(), 0, addr(i)),
                 cluster_id: "c".into(),
                 gossip_interval: Duration::from_millis(cfg.interval_ms),
-                listen_addr: addr(i),
+                listen_addr: listen_addr(&cfg, i),
                 seed_nodes: cfg
                     .seeds
                     .iter()
-                    .filter(|s| **s != i)
+                    .filter(|s| **s != i || cfg.self_in_seeds)
                     .map(|s| addr(*s).to_string())
                     .chain(cfg.dns.get(i).and_then(|e| e.as_ref()).map(|_| dns_host(i)))
                     .collect(),
@@ -486,8 +501,9 @@ impl Run {
                 let net2 = net.clone();
                 chitchat::verif::set_udp_factory(Some(Box::new(move |bind_addr| {
                     let (tx, rx) = mpsc::unbounded_channel();
-                    net2.lock().unwrap().inboxes.insert(bind_addr, tx);
-                    Ok(Box::new(SimRaw { addr: bind_addr, net: net2.clone(), rx: tokio::sync::Mutex::new(rx) }) as Box<dyn chitchat::verif::SimUdpSocket>)
+                    let public = net2.lock().unwrap().alias.get(&bind_addr).copied().unwrap_or(bind_addr);
+                    net2.lock().unwrap().inboxes.insert(public, tx);
+                    Ok(Box::new(SimRaw { addr: public, net: net2.clone(), rx: tokio::sync::Mutex::new(rx) }) as Box<dyn chitchat::verif::SimUdpSocket>)
                 })));
                 let h = spawn_chitchat(config, vec![("k".into(), format!("v{i}"))], &chitchat::transport::UdpTransport).await.expect("spawn");
                 chitchat::verif::set_udp_factory(None);
@@ -552,7 +568,7 @@ impl Run {
         // resolutions in force at some moment of [from, now]
         let in_window: Vec<&Option<Vec<SocketAddr>>> =
             hist.iter().enumerate().filter(|(k, (t, _))| *t <= now && hist.get(k + 1).map(|n| n.0 >= from).unwrap_or(true)).map(|(_, e)| &e.1).collect();
-        let literal: Vec<SocketAddr> = self.cfg.seeds.iter().filter(|s| **s != i).map(|s| addr(*s)).collect();
+        let literal: Vec<SocketAddr> = self.cfg.seeds.iter().filter(|s| **s != i || self.cfg.self_in_seeds).map(|s| addr(*s)).collect();
         self.net.lock().unwrap().stats.inc("seed_checks");
         self.nontrivial = true;
         if hist.len() > 1 && now > hist[1].0 + DNS_PERIOD_MS + 10 {
@@ -865,7 +881,7 @@ impl Run {
                 // let the server drain what it has, then make sure its rounds send at least one SYN
                 tokio::time::sleep(Duration::from_micros(1)).await;
                 let h = self.srv[i].handle.as_ref().unwrap();
-                let Ok(has_target) = tokio::time::timeout(Duration::from_millis(self.cfg.interval_ms * 10), h.with_chitchat(|c| c.node_states().len() > 1 || !c.seed_nodes().is_empty())).await else {
+                let Ok(has_target) = tokio::time::timeout(Duration::from_millis(self.cfg.interval_ms * 10), h.with_chitchat(|c| { let own = c.self_chitchat_id().gossip_advertise_addr; c.node_states().len() > 1 || c.seed_nodes().iter().any(|a| *a != own) })).await else {
                     return Ok(());
                 };
                 if !has_target {
@@ -1250,6 +1266,8 @@ fn gen_cmds(seed: u64) -> (E2Cfg, Vec<E2Cmd>) {
         dead_grace_ms: *r.pick(&[20_000u64, 3_600_000]),
         dns: Vec::new(),
         raw_udp: false,
+        split_addr: false,
+        self_in_seeds: false,
     };
     // name resolution runs draw from their own stream, so the other runs keep their commands
     let mut r2 = Rng::new(seed ^ 0x5EED_D45_0000_0001);
@@ -1262,6 +1280,8 @@ fn gen_cmds(seed: u64) -> (E2Cfg, Vec<E2Cmd>) {
         cfg.dns = (0..n).map(|i| if r2.chance(0.75) { Some(slots_for(&mut r2, i)) } else { None }).collect();
     }
     cfg.raw_udp = raw_udp;
+    cfg.split_addr = r2.chance(0.4);
+    cfg.self_in_seeds = r2.chance(0.4);
     let cfg = cfg;
     let mut cmds = Vec::new();
     let steps = r.range(6, 30);
